@@ -792,11 +792,9 @@ pub async fn run(ops: &str, out: &str, stats_path: Option<&str>, work: &str) {
                             if bad.is_empty() {
                                 format!("conf ok n={}", total)
                             } else {
-                                c14w.oracle.push(format!(
-                                    "{} old-row-not-conforming rows of the instance that a peer running the same model refuses: {}",
-                                    c14w.case_index.max(0),
-                                    bad.join(",")
-                                ));
+                                for b in &bad {
+                                    stats.inc(&format!("conf.bad.{}", b.split(':').nth(1).unwrap_or("?")));
+                                }
                                 let nos: Vec<String> = bad.iter().map(|b| b.split(':').next().unwrap_or("").to_string()).collect();
                                 format!("conf bad n={} {}", total, nos.join(","))
                             }
